@@ -11,6 +11,7 @@ import (
 	"github.com/MixinNetwork/mixin/common"
 	"github.com/MixinNetwork/mixin/config"
 	"github.com/MixinNetwork/mixin/crypto"
+	"github.com/MixinNetwork/mixin/storage"
 	"github.com/MixinNetwork/mixin/verifgen"
 	"github.com/MixinNetwork/mixin/verifkit"
 )
@@ -78,7 +79,8 @@ func TestVerif_C20(t *testing.T) {
 		"self = recomputed hash of the previous final round, external = stored final round of another node, ReadLink(from,to) non-decreasing over the history and equal to the " +
 		"in-memory link. After a rejected one: chain state and the ROUND*/LINK* key digest are unchanged. non-trivial = distinct transition attempts by (path, variant, outcome)")
 	rng := r.Rand()
-	f := verifNewFeed(t, fmt.Sprintf("c20-%d", r.Seed), 7, rng, t.TempDir(), nil)
+	var px *verifProxy
+	f := verifNewFeed(t, fmt.Sprintf("c20-%d", r.Seed), 7, rng, t.TempDir(), func(bs *storage.BadgerStore) storage.Store { px = newVerifProxy(bs); return px })
 	defer f.stop()
 	w := verifgen.NewWallet(f.net.Label, rng, &f.net.Custodian, 4)
 	assets := verifgen.Assets()
@@ -222,6 +224,16 @@ func TestVerif_C20(t *testing.T) {
 		var outcomeErr error
 		panicked := false
 		var pval any
+		// now and then the store refuses the round write (disk trouble): the node either stops (a panic here) or
+		// reports the failure with its state unchanged
+		injected := false
+		if variant == "valid" && rng.Intn(5) == 0 {
+			injected = true
+			px.mu.Lock()
+			px.failures = map[string]int{"StartNewRound": 1, "UpdateEmptyHeadRound": 1}
+			px.mu.Unlock()
+			variant = "valid-but-the-store-write-fails"
+		}
 		if path == "strict" {
 			// what an announcement from the chain's leader triggers on this replica
 			p, v, _ := verifkit.Guard(func() {
@@ -254,6 +266,21 @@ func TestVerif_C20(t *testing.T) {
 			}
 		}
 		r.Eval()
+		px.mu.Lock()
+		consumed := injected && (px.failures["StartNewRound"] == 0 || px.failures["UpdateEmptyHeadRound"] == 0)
+		px.failures = nil
+		px.mu.Unlock()
+		if injected && panicked {
+			// the node stops on a failed round write; what a restart finds is C22's subject
+			r.Count("store_write_failures_answered_by_stopping", 1)
+			if err := f.restart(); err != nil {
+				t.Fatal(err)
+			}
+			continue
+		}
+		if consumed {
+			r.Count("store_write_failures_reported_without_stopping", 1)
+		}
 		after := vC20Capture(f, x)
 		moved := after.cacheNumber != before.cacheNumber || after.refs != before.refs
 		outcome := "rejected"
